@@ -127,3 +127,35 @@ def verbose_decoder_never_raises(state):
     H.check("C13:never-raises", True)
     H.check("C13:reports-what-the-step-specification-reports",
             H.And(len(out) == len(outputs), all([H.eq(o[1], so) for (o, so) in zip(out, outputs)])))
+
+
+
+# ... and over a real DiagLayer (its prefix tree, candidate search and DiagService.decode_message are the library's;
+# only the coding objects are the ghosts of contracts/attribution.py)
+from contracts import attribution as AT  # noqa: E402
+from odxtools.diaglayers.diaglayer import DiagLayer  # noqa: E402
+
+
+@harness(props=["C13"], strength="B", family=lambda t, s: [{"direction": d} for d in ("tester", "ecu")],
+         bound="telegram payload of 0..2 arbitrary bytes; one service with request, positive and negative response whose "
+         "constant prefixes and decoding outcomes are symbolic",
+         functions=[snoop.handle_telegram, DiagLayer.decode, DiagLayer.decode_response, DiagLayer._find_services_for_uds],
+         covers=["handled"], assumes=["A-lib"], crosscheck=False)
+def telegram_handling_over_a_real_layer_is_total(direction):
+    """handle_telegram never raises for any telegram - the empty one included - when the layer is a real DiagLayer"""
+    layer = DiagLayer.__new__(DiagLayer)
+    raw = AT.GhostRaw()
+    raw.services = [AT.mk_service(0, True)]
+    layer.diag_layer_raw = raw
+    payload = H.bytes("payload", 0, 2)
+    H.set_global(snoop, "odx_diag_layer", layer)
+    H.set_global(snoop, "ecu_rx_id", 0x7E0)
+    H.set_global(snoop, "ecu_tx_id", 0x7E8)
+    H.set_global(snoop, "last_request", b"\x10\x01" if direction == "ecu" else None)
+    try:
+        snoop.handle_telegram(0x7E8 if direction == "ecu" else 0x7E0, payload)
+    except Exception:
+        H.check("C13:never-raises", False)
+        return
+    H.cover("handled")
+    H.check("C13:never-raises", True)
